@@ -38,3 +38,10 @@ add("C07", "model_checking", "exhaustive enumeration of all compositions (split 
     "return_states/all_states on the real integrate; recordings and returned states are compared with the one-shot run and with init_fn/step_fn stepping.",
     "1e-10 tolerance (observed agreement is bit-for-bit); runs of 4-5 steps with data-fed stimulus and clamp; F6 (prod(checkpoint_lengths) > steps) is a listed known finding.",
     "DESIGN.md §7 C07")
+
+add("C08", "model_checking", "explicit-state exploration of all record/stimulate/clamp request histories up to depth 2-3 on a real network, integrate output compared with a reference built from the request log",
+    "Every request history over a 14-request alphabet (depth 1 on all three synapse-type orders x t_max modes x stored/data-fed, depth 2-3 on the interleaved "
+    "order) is replayed on a fresh real network; the complete output matrix of integrate (row order, column timing, values) is compared with a reference "
+    "simulator driven by the request log only, so misplaced rows/indices cannot cancel out.",
+    "Reference simulator mirrors the documented staggering; recorded currents may follow either voltage convention (weaker reading); runs are 2-6 steps.",
+    "DESIGN.md §7 C08")
